@@ -76,3 +76,20 @@ package flows
 //@   props C02
 //@   requires buildParams != nil
 //@   ensures[retry-first-block] result == nil ==> ((buildParams.RetryCount > 0 && buildParams.LastSentCertificate != nil) ==> buildParams.FromBlock == buildParams.LastSentCertificate.FromBlock)
+
+// ---- bridge exits of a certificate (C03): same number, same order, every field copied, metadata replaced by its hash
+
+//@ func convertBridgeMetadata
+//@   props C03
+//@   ensures[empty] len(metadata) == 0 ==> result == nil
+//@   ensures[hashed] len(metadata) > 0 ==> len(result) == 32 && off(result) == 0 && seq(result) == hb(keccak(catB(emptyB(), bytesOf(seq(metadata), len(metadata)))))
+
+//@ func (f *baseFlow) getBridgeExits
+//@   props C03
+//@   ensures[same-length] len(result) == len(bridges)
+//@   ensures[same-order-same-fields] forall(k, 0, len(bridges), result[k] != nil && result[k].TokenInfo != nil && result[k].LeafType == bridges[k].LeafType && result[k].TokenInfo.OriginNetwork == bridges[k].OriginNetwork && result[k].TokenInfo.OriginTokenAddress == bridges[k].OriginAddress && result[k].DestinationNetwork == bridges[k].DestinationNetwork && result[k].DestinationAddress == bridges[k].DestinationAddress && result[k].Amount == bridges[k].Amount)
+//@   ensures[metadata-hashed] forall(k, 0, len(bridges), (len(bridges[k].Metadata) == 0 ==> result[k].Metadata == nil) && (len(bridges[k].Metadata) > 0 ==> len(result[k].Metadata) == 32 && off(result[k].Metadata) == 0 && seq(result[k].Metadata) == hb(keccak(catB(emptyB(), bytesOf(seq(bridges[k].Metadata), len(bridges[k].Metadata)))))))
+//@   loop 0 invariant 0 <= rangeindex + 1 && rangeindex + 1 <= len(bridges) && len(bridgeExits) == rangeindex + 1 && off(bridgeExits) == 0
+//@   loop 0 invariant ref(bridgeExits) < heapTop && forall(k, 0, rangeindex + 1, bridgeExits[k] < heapTop && bridgeExits[k].TokenInfo < heapTop)
+//@   loop 0 invariant forall(k, 0, rangeindex + 1, bridgeExits[k] != nil && fresh(bridgeExits[k]) && bridgeExits[k].TokenInfo != nil && fresh(bridgeExits[k].TokenInfo) && bridgeExits[k].LeafType == bridges[k].LeafType && bridgeExits[k].TokenInfo.OriginNetwork == bridges[k].OriginNetwork && bridgeExits[k].TokenInfo.OriginTokenAddress == bridges[k].OriginAddress && bridgeExits[k].DestinationNetwork == bridges[k].DestinationNetwork && bridgeExits[k].DestinationAddress == bridges[k].DestinationAddress && bridgeExits[k].Amount == bridges[k].Amount)
+//@   loop 0 invariant forall(k, 0, rangeindex + 1, (len(bridges[k].Metadata) == 0 ==> bridgeExits[k].Metadata == nil) && (len(bridges[k].Metadata) > 0 ==> len(bridgeExits[k].Metadata) == 32 && off(bridgeExits[k].Metadata) == 0 && seq(bridgeExits[k].Metadata) == hb(keccak(catB(emptyB(), bytesOf(seq(bridges[k].Metadata), len(bridges[k].Metadata)))))))
